@@ -124,6 +124,13 @@ def run(ctx):
               lambda P_: must_pass(P_, 'Group::join_with', r'InterimTranscriptHash::create$'), floor=1)
     from .C02 import receiver_exclusion
     ctx.check('SIBLING', 'sender and receiver locate a ciphertext in the resolution by the same exclusion rule', receiver_exclusion, floor=1)
+    # the components of the epoch state move together: none of them is written while the operation that changes the epoch can still
+    # fail (a member left with the new context and the old secrets, or the reverse, agrees with nobody)
+    from ..core.fa_rule import fail_atomic_paths
+    ctx.check('FAIL-ATOMIC', 'epoch state (context, tree, transcript, key schedule, epoch secrets) is replaced as a whole',
+              fail_atomic_paths(P, ['Group::process_incoming_message', 'Group::process_incoming_message_with_time', 'Group::apply_pending_commit'],
+                                r'^state\.(context|public_tree|interim_transcript_hash|confirmation_tag)(\.|$)|^key_schedule(\.|$)|^epoch_secrets(\.(?!secret_tree)|$)|^private_tree(\.|$)',
+                                'a commit that fails late leaves a mixed epoch state'), floor=1)
     # every member must end up able to follow the NEXT commit too: committer, receiver and joiner derive a key for every unfiltered
     # node of the path (a joiner that stops early agrees on every public value and then cannot open a later update path)
     from ..core.rules import exhaustive_loop
